@@ -59,6 +59,7 @@ type observation struct {
 	SlowStop                           bool   // had to be killed after SIGTERM (shutdown is C11's subject, only counted here)
 	UsedUp                             bool   // the upstream proxy saw the configured credentials
 	UsedSite                           bool   // the origin saw the configured site credentials
+	PortRace                           bool   // all start attempts lost their port to another process (no verdict)
 }
 
 var (
@@ -120,7 +121,13 @@ func runOnce(ctx *core.Ctx, c *Case, k int) (*observation, *plan) {
 
 	for attempt := 0; ; attempt++ {
 		o, p, retry := runAttempt(ctx, c, k, g, dir)
-		if !retry || attempt >= 2 {
+		if !retry {
+			return o, p
+		}
+		if attempt >= 7 {
+			// every attempt lost its pre-picked port to another process of this machine: that says
+			// nothing about the binary
+			o.PortRace = true
 			return o, p
 		}
 	}
